@@ -43,9 +43,14 @@ type Script struct {
 	ProgressDelay time.Duration
 	AsPeer        peer.ID // if set, the returned conn is authenticated as this peer instead of the dialled one
 	Limited       *bool   // overrides the transport's Limited flag for this conn
+	// IgnoreCancel: a successful dial completes after Delay even if its context was cancelled
+	// meanwhile (the handshake finished at or just after the cancel, as a real transport may)
+	IgnoreCancel bool
 }
 
 var ErrScriptedFailure = errors.New("scripted: dial failed")
+
+var connSeq atomic.Int64
 
 // DialRecord is one Dial invocation as seen by the transport.
 type DialRecord struct {
@@ -57,9 +62,12 @@ type DialRecord struct {
 	Done       bool
 	Err        error
 	CtxDone    bool // the dial ended because its context was done
-	Conn       *Conn
-	Script     Script
-	FD         bool
+	// CancelAt: when the context ended, for a dial that went on regardless (Script.IgnoreCancel)
+	CancelAt  time.Time
+	CancelErr error
+	Conn      *Conn
+	Script    Script
+	FD        bool
 }
 
 // World is shared by all transports of one case; it numbers dials globally and keeps
@@ -217,7 +225,16 @@ func (t *Transport) dial(ctx context.Context, raddr ma.Multiaddr, p peer.ID, ch 
 		}
 		return finish(nil, fmt.Errorf("%w: %s", ErrScriptedFailure, raddr), false)
 	default:
-		if !wait(sc.Delay) {
+		if sc.IgnoreCancel {
+			if !wait(sc.Delay) {
+				w.mu.Lock()
+				rec.CancelAt, rec.CancelErr = time.Now(), ctx.Err()
+				w.mu.Unlock()
+				if left := sc.Delay - time.Since(rec.Start); left > 0 {
+					time.Sleep(left)
+				}
+			}
+		} else if !wait(sc.Delay) {
 			return finish(nil, ctx.Err(), true)
 		}
 		rp := p
@@ -229,7 +246,7 @@ func (t *Transport) dial(ctx context.Context, raddr ma.Multiaddr, p peer.ID, ch 
 			limited = *sc.Limited
 		}
 		c := t.NewConn(rp, raddr, limited)
-		return finish(c, nil, false)
+		return finish(c, nil, ctx.Err() != nil) // CtxDone on a success: completed although cancelled meanwhile
 	}
 }
 
@@ -237,7 +254,8 @@ func (t *Transport) dial(ctx context.Context, raddr ma.Multiaddr, p peer.ID, ch 
 func (t *Transport) NewConn(remote peer.ID, raddr ma.Multiaddr, limited bool) *Conn {
 	c := &Conn{
 		T: t, Local: t.Local, Remote: remote, RAddr: raddr, Limited: limited,
-		LAddr:    ma.StringCast("/ip4/127.0.0.1/tcp/1"),
+		// a local address of its own, so that a swarm connection can be traced back to it
+		LAddr:    ma.StringCast(fmt.Sprintf("/ip4/127.0.0.1/tcp/%d", 1+connSeq.Add(1)%65000)),
 		incoming: make(chan *Stream, 64),
 		closedCh: make(chan struct{}),
 	}
